@@ -53,10 +53,13 @@ Init == \E id \in Kernels : \E nw \in NWOf(id) : \E to \in Timeouts :
 \* mentions their identity, so with ReduceIdle they exit in index order (2^m subsets -> m + 1).
 IdleOrderOk(w) == ReduceIdle /\ Len(Sl(w)) = 0 => \A v \in 0..(w - 1) : Len(Sl(v)) = 0 => wst[v] # "run"
 
+Workers  == \E w \in W : IdleOrderOk(w) /\ WStep(w)
+Deadline == TickEnabled /\ Tick
+
 Next ==
   \/ StartAll
-  \/ \E w \in W : IdleOrderOk(w) /\ WStep(w)
-  \/ (TickEnabled /\ Tick)
+  \/ Workers
+  \/ Deadline
   \/ Check \/ Sleep \/ Kill \/ JoinAll \/ Copy \/ PostProcess
   \/ Terminated
 
